@@ -596,8 +596,13 @@ func (pf *ParserFacts) producerGuard(root ssa.Value, accepted ...atomKind) (bool
 			}
 			if !boundNil {
 				// the nil-ness of a list parameter is a mode switch chosen by passing the nil
-				// literal; at a call site that passes a list the nil branch is not taken
-				modeCut[[2]*ssa.BasicBlock{b, nilSucc}] = true
+				// literal; at a call site that passes a list that is never nil (created as a
+				// literal / by make / extended by append on every path that stores it) the nil
+				// branch is not taken. A list that may be nil (var xs []T, never appended to for
+				// an empty parameter list) would silently switch the checks off.
+				if pf.neverNil(call.Call.Args[i], 0, map[ssa.Value]bool{}) {
+					modeCut[[2]*ssa.BasicBlock{b, nilSucc}] = true
+				}
 				continue
 			}
 			for _, x := range callee.Blocks {
@@ -1118,4 +1123,110 @@ func c06Subst(w *World, pf *ParserFacts, r *Result) {
 	if n == 0 {
 		r.Bad(rule, "subst:none", "-", "no replacement of a parsed value by a synthesised node found (the nil → empty slice rule for slice results is expected)")
 	}
+}
+
+// neverNil: the slice value is non-nil on every path: a literal, make, append of elements,
+// a field all of whose stores are never nil, the result of a function all of whose success
+// returns are never nil, or a merge of such values.
+func (pf *ParserFacts) neverNil(v ssa.Value, depth int, seen map[ssa.Value]bool) bool {
+	if depth > 6 {
+		return false
+	}
+	if seen[v] {
+		return true // a cycle through a loop phi adds nothing new
+	}
+	seen[v] = true
+	switch x := v.(type) {
+	case *ssa.Const:
+		return !x.IsNil()
+	case *ssa.Slice:
+		if _, ok := x.X.(*ssa.Alloc); ok {
+			return true // composite literal
+		}
+		return pf.neverNil(x.X, depth+1, seen)
+	case *ssa.MakeSlice:
+		return true
+	case *ssa.Phi:
+		for _, e := range x.Edges {
+			if !pf.neverNil(e, depth+1, seen) {
+				return false
+			}
+		}
+		return true
+	case *ssa.Call:
+		if bi, ok := x.Call.Value.(*ssa.Builtin); ok && bi.Name() == "append" {
+			if len(x.Call.Args) == 2 && len(variadicElems(x.Call.Args[1])) > 0 {
+				return true
+			}
+			return pf.neverNil(x.Call.Args[0], depth+1, seen)
+		}
+		return false
+	case *ssa.Extract:
+		call, ok := x.Tuple.(*ssa.Call)
+		if !ok {
+			return false
+		}
+		callee := call.Call.StaticCallee()
+		if callee == nil || len(callee.Blocks) == 0 || !pf.W.IsProduct(pkgOf(callee)) {
+			return false
+		}
+		for _, b := range callee.Blocks {
+			ret, ok := b.Instrs[len(b.Instrs)-1].(*ssa.Return)
+			if !ok || isErrorReturn(ret) || errorBranchReturn(ret) || x.Index >= len(ret.Results) {
+				continue
+			}
+			if !pf.neverNil(ret.Results[x.Index], depth+1, seen) {
+				return false
+			}
+		}
+		return true
+	case *ssa.Field:
+		return pf.fieldNeverNil(x.X.Type(), x.Field, depth, seen)
+	case *ssa.UnOp:
+		if fa, ok := x.X.(*ssa.FieldAddr); ok {
+			if pt, ok := fa.X.Type().Underlying().(*types.Pointer); ok {
+				return pf.fieldNeverNil(pt.Elem(), fa.Field, depth, seen)
+			}
+		}
+		if al, ok := x.X.(*ssa.Alloc); ok {
+			okAll, any := true, false
+			for _, ref := range *al.Referrers() {
+				if st, ok := ref.(*ssa.Store); ok && st.Addr == al {
+					any = true
+					if !pf.neverNil(st.Val, depth+1, seen) {
+						okAll = false
+					}
+				}
+			}
+			return any && okAll
+		}
+	}
+	return false
+}
+
+func (pf *ParserFacts) fieldNeverNil(structT types.Type, field int, depth int, seen map[ssa.Value]bool) bool {
+	any := false
+	for _, fn := range pf.W.Funcs("parser") {
+		for _, b := range fn.Blocks {
+			for _, ins := range b.Instrs {
+				st, ok := ins.(*ssa.Store)
+				if !ok {
+					continue
+				}
+				fa, ok := st.Addr.(*ssa.FieldAddr)
+				if !ok || fa.Field != field {
+					continue
+				}
+				pt, ok := fa.X.Type().Underlying().(*types.Pointer)
+				if !ok || !types.Identical(pt.Elem(), structT) {
+					continue
+				}
+				any = true
+				if !pf.neverNil(st.Val, depth+1, seen) {
+					return false
+				}
+			}
+		}
+	}
+	return any
 }
